@@ -151,8 +151,8 @@ B('C11.sentinel-width', ['C11'], [(P + 'common/parse.py', "            timestamp
 B('C11.struct-code-signed', ['C11'], [(P + 'common/parse.py', "    2: 'H',", "    2: 'h',")])
 B('C11.flag-shift-direction', ['C11'], [(P + 'common/parse.py', "            flag |= value >> shift_right", "            flag |= value << shift_right")])
 # ---------------------------------------------------------------- C12
-B('C12.mutate-before-check', ['C12'], [(P + 'common/base.py', "        self._update_items_size(insert_item=value)\n\n        self._items.insert(index, value)", "        self._items.insert(index, value)\n        self._update_items_size(insert_item=value)")])
-B('C12.wrong-edit-described', ['C12'], [(P + 'common/base.py', "        self._update_items_size(del_item=self._items[index], insert_item=value)\n        self._items[index] = value", "        self._update_items_size(insert_item=value)\n        self._items[index] = value")])
+B('C12.mutate-before-check', ['C12'], [(P + 'common/base.py', "        self._update_items_size(insert_items=(value, ))\n\n        self._items.insert(index, value)", "        self._items.insert(index, value)\n        self._update_items_size(insert_items=(value, ))")])
+B('C12.wrong-edit-described', ['C12'], [(P + 'common/base.py', "        self._update_items_size(del_items=(self._items[index], ), insert_items=(value, ))\n        self._items[index] = value", "        self._update_items_size(insert_items=(value, ))\n        self._items[index] = value")])
 B('C12.bound-not-strict', ['C12'], [(P + 'common/base.py', "        if self._items_size + size_diff > self.param.max_byte_num:", "        if self._items_size + size_diff >= self.param.max_byte_num + 2:")])
 B('C12.prefix-from-cache', ['C12'], [(P + 'common/base.py', "        composer.compose_numeric(len(self._items) * self.param.item_size, self.param.item_num_size)", "        composer.compose_numeric(self._items_size, self.param.item_num_size)")])
 B('C12.outside-writer', ['C12'], [(P + 'tls/extension.py', "    def get_item_by_type(self, extension_type):\n        try:", "    def get_item_by_type(self, extension_type):\n        self._items.sort(key=id)\n        try:")], props=['C12', 'C13'])
@@ -469,3 +469,6 @@ B('C06.scsv-depends-on-extensions', ['C06', 'C05', 'C01'], [(P + 'tls/subprotoco
 B('C12.none-item-not-booked', ['C12'], [(P + 'common/base.py', "        for item in insert_items:\n            size_diff += self.param.get_item_size(item)\n",
   "        for item in insert_items:\n            if item is not None:\n                size_diff += self.param.get_item_size(item)\n")], mention=['C12.R9'])
 B('C12.insert-books-before-position-check', ['C12'], [(P + 'common/base.py', "        operator.index(index)\n\n", "")], mention=['C12.R9', 'insert'])
+# the length a DNS record parser demands up front against the shortest RDATA the specification allows
+B('C08.rrsig-demands-too-much', ['C08'], [(P + 'dnsrec/record.py', "    HEADER_SIZE = 19\n", "    HEADER_SIZE = 20\n")], mention=['C08.R13'])
+N('benign.rrsig-demands-fixed-part-only', [(P + 'dnsrec/record.py', "    HEADER_SIZE = 19\n", "    HEADER_SIZE = 18\n")])
